@@ -95,6 +95,9 @@ TNext ==
                  [] r.op = "deafen" -> Deafen(r.c)
             /\ Observe(r)
             /\ Judge(r)
+       [] r.e = "late" ->
+            (* a datagram arrived that no Flush accounts for (the history has ended, the transport is closed) *)
+            /\ UNCHANGED <<vars, ovars>> /\ Fail("ExactDelivery:datagram-no-flush-accounts-for")
        [] r.e = "phase" ->
             (* the real M3 reporter on top of the transport: a batch that outgrew the transport is dropped as a
                whole, every later batch arrives complete and alone at every destination *)
